@@ -171,7 +171,9 @@ class Request(HTTPConnection):
                 return json.loads(
                     data.decode(self.content_type.options.get("charset", "utf8"))
                 )
-            except json.JSONDecodeError as exc:
+            except (ValueError, LookupError, RecursionError) as exc:
+                # not JSON, not decodable with the declared charset, an unknown
+                # charset, a number or a nesting depth Python refuses
                 raise MalformedJSON(str(exc)) from None
 
         raise UnsupportedMediaType("application/json")
